@@ -113,7 +113,7 @@ pub fn property_assumptions(property: &str) -> Vec<String> {
             v.push("partial windows: values are checked when reported (NET, CoG) or left open (CTI); f64 leg exempts windows whose spread (CTI) or sum (CoG) is below 1e-3 of their magnitude".into());
         }
         "C07" => {
-            v.push("'a few ulps of the bound' = 8 ulps (of the range width where the bound is 0); Min/Max bounds are taken over the values as the scalar sees them".into());
+            v.push("'a few ulps of the bound' = 8 ulps, 8 + N ulps for quotients of N-term sums (Sma, Alma, CoG, Vsct: half an ulp of rounding per summand is unavoidable) (of the range width where the bound is 0); Min/Max bounds are taken over the values as the scalar sees them".into());
             v.push("PFE / EFT are exercised with averaging moving averages Sma, Ema, Alma (1..6)".into());
         }
         "C08" => {
